@@ -54,7 +54,7 @@ PROPS.update({
     },
     "C10": {
         "level": "proof",
-        "text": "Kernel-checked: Err(Timeout) is returned only by operations given a timeout and never before issue instant + timeout (never_early, on the monitor predicate), the timer label is guarded by the deadline, and is_retryable (translated from src/error.rs on every run) is true exactly for Timeout. Exactness on the virtual clock (fires at the deadline, other outcomes not later) is checked on every real trace by C10.exact and by step-by-step correspondence including return instants. Real clock: the reply is produced at once and the runtime thread is then kept busy past the deadline, with the call made from a spawned task and from the runtime's main task (the time driver turns before the caller is polled): the result must be the reply. New (every schedule): timeout_only_while_pending - the step that yields Err(Timeout) is enabled only while the operation is incomplete (send still queued for a permit on an open mailbox; ask whose reply is neither sent nor lost), so an outcome that is already there is never masked however late the caller is polled (tokio::time::timeout polls the operation before the timer: assumption on Tokio, the wrapper's shape is extracted); timeout_only_from_timer - no other step returns Timeout; send_failure_not_delayed / lost_reply_not_delayed - a closed mailbox or a lost reply is reported as itself at the caller's next poll, whatever the deadline.",
+        "text": "Kernel-checked: Err(Timeout) is returned only by operations given a timeout and never before issue instant + timeout (never_early, on the monitor predicate), the timer label is guarded by the deadline, and is_retryable (translated from src/error.rs on every run) is true exactly for Timeout. Exactness on the virtual clock (fires at the deadline, other outcomes not later) is checked on every real trace by C10.exact and by step-by-step correspondence including return instants. Real clock: the reply is produced at once and the runtime thread is then kept busy past the deadline, with the call made from a spawned task and from the runtime's main task (the time driver turns before the caller is polled): the result must be the reply. New (every schedule): timeout_only_while_pending - the step that yields Err(Timeout) is enabled only while the operation is incomplete (send still queued for a permit on an open mailbox; ask whose reply is neither sent nor lost), so an outcome that is already there is never masked however late the caller is polled (tokio::time::timeout polls the operation before the timer: assumption on Tokio, the wrapper's shape is extracted); timeout_only_from_timer - no other step returns Timeout; send_failure_not_delayed / lost_reply_not_delayed - a closed mailbox or a lost reply is reported as itself at the caller's next poll, whatever the deadline. Monitor C10.failureIsFinal on every real trace: an operation that returned Err(Send) or Err(Receive) does not enter a handler afterwards.",
         "note": PROOF_NOTE + " Wall-clock behaviour of the blocking variants is outside the model (see C17).",
         "technique": "Lean 4 invariant proof over label sequences + translated is_retryable + correspondence with virtual-clock return instants",
         "monitors": ["C10"],
@@ -104,7 +104,7 @@ PROPS.update({
 PROPS.update({
     "C03": {
         "level": "proof",
-        "text": "Kernel-checked for every run: reply_integrity (on the monitor predicate), ended_clean, later_fail, and completes - once the actor has ended every operation still in flight (queued for a permit, holding a permit, awaiting a reply, even with its envelope pushed after the receivers were dropped) completes within two of its own steps. The last case relies on the repaired reply wait, whose presence is extracted from src/actor_ref.rs on every run (Extracted.ask_wait_watches_closed). Correspondence + monitors C03.replyIntegrity / nothingPendingAfterEnd / laterFail on real traces. Progress (every schedule): no_operation_left_hanging - in every reachable state in which nothing can run any more (neither the actor's task nor a client operation) and the actor is idle or has ended, every operation ever issued has returned: no ask still waits for a reply, no send for a slot (Inv/Progress.lean: NoIdleSlot, ProgInv, quiescent_all_returned).",
+        "text": "Kernel-checked for every run: reply_integrity (on the monitor predicate), ended_clean, later_fail, and completes - once the actor has ended every operation still in flight (queued for a permit, holding a permit, awaiting a reply, even with its envelope pushed after the receivers were dropped) completes within two of its own steps. The last case relies on the repaired reply wait, whose presence is extracted from src/actor_ref.rs on every run (Extracted.ask_wait_watches_closed). Correspondence + monitors C03.replyIntegrity / nothingPendingAfterEnd / laterFail on real traces. Progress (every schedule): no_operation_left_hanging - in every reachable state in which nothing can run any more (neither the actor's task nor a client operation) and the actor is idle or has ended, every operation ever issued has returned: no ask still waits for a reply, no send for a slot (Inv/Progress.lean: NoIdleSlot, ProgInv, quiescent_all_returned). Stress scenario `queuedask`: asks with reply types String, (), Option<String> and Vec<u8> still queued when the actor ends (kill, or behind a stop marker) fail with Err(Receive), unhandled, with one dead letter - never an Ok. Theorem settled_scheduler_all_returned restates the progress theorem in the scheduler's terms (Exec.runnable = []).",
         "note": PROOF_NOTE + " ask_join is covered by the existing suite only. The stranding interleaving exists only with true parallelism; on the real code it is exercised by the multi-thread hammer (thorough).",
         "technique": "Lean 4 invariant proofs + progress theorem over label sequences + extraction of the reply-wait protocol + correspondence",
         "extra": ["stress"],
@@ -176,11 +176,11 @@ PROPS.update({
     },
     "C14": {
         "level": "proof",
-        "text": "Kernel-checked: hasPath_spec (the function translated from has_path decides reachability in >= 1 step for every graph: the len() bound always suffices), graph_covers (every unanswered in-flight ask has its edge in every reachable state), closes_panics (self-ask or any chain of in-flight asks back to the asker => the ask panics with the cycle path, inserts no edge, for every cycle length and creation order), waits_otherwise, no_one_left_waiting, asks_to_dead_are_lost, path_starts_with_caller. The protocol steps (check+insert under one lock, all four hooks scoped) are extracted. Real side: random ask topologies (cycles of length 1-5, timeouts, panics, kills) replayed on the model: every model-predicted deadlock must be a real panic with the same cycle path; translation differential on 11,886 graph queries. Peers whose on_run fails reach on_stop through the error path (`runerr<k>`): cycles closed by asks made there are part of the generated histories and of the corpus.",
+        "text": "Kernel-checked: hasPath_spec (the function translated from has_path decides reachability in >= 1 step for every graph: the len() bound always suffices), graph_covers (every unanswered in-flight ask has its edge in every reachable state), closes_panics (self-ask or any chain of in-flight asks back to the asker => the ask panics with the cycle path, inserts no edge, for every cycle length and creation order), waits_otherwise, no_one_left_waiting, asks_to_dead_are_lost, path_starts_with_caller. The protocol steps (check+insert under one lock, all four hooks scoped) are extracted. Real side: random ask topologies (cycles of length 1-5, timeouts, panics, kills) replayed on the model: every model-predicted deadlock must be a real panic with the same cycle path; translation differential on 11,886 graph queries. Peers whose on_run fails reach on_stop through the error path (`runerr<k>`): cycles closed by asks made there are part of the generated histories and of the corpus. Stress scenario `cyclerace` (all-features build): two actors on two OS threads ask each other at the same instant behind a spin barrier, 1500 rounds: one of the two asks is always reported.",
         "note": PROOF_NOTE + " Asks awaited concurrently inside one hook are outside the property (sequential asks only).",
         "technique": "Lean 4 proof (pigeonhole bound for the translated graph walk; protocol invariant) + replay of real histories on the protocol model",
         "monitors": ["C03"],
-        "extra": ["netcorr", "tables"],
+        "extra": ["netcorr", "tables", "stress"],
         "corr": corr(["mixed"], nq=60, nt=500),
         "extract_items": ["has_path", "format_cycle_path", "ask_protocol", "feature_sites"],
         "assumptions": COMMON_ASSUME,
@@ -201,7 +201,7 @@ PROPS.update({
 PROPS.update({
     "C16": {
         "level": "proof",
-        "text": "Kernel-checked: forwarders_verbatim (the table of all 28 trait-object methods, read from src/handler.rs and src/actor_control.rs on every run, forwards each method to the inherent method of the same name with the same arguments, strong traits implemented by ActorRef only, weak traits by ActorWeak only), conversions_keep_strength (every From conversion boxes the value itself or its clone: strong->strong, weak->weak), clone_keeps_strength / keeps_alive (model). Since each erased operation IS the direct one, all C01-C15 theorems transfer. Real side: every seeded script is run twice against the same model, once on ActorRef/ActorWeak directly and once with every operation (tell/ask/timeouts/stop/kill/clone/downgrade/upgrade/is_alive/identity) routed through a trait object chosen per operation (TellHandler, AskHandler, ActorControl, Weak*; via From<&ActorRef>, From<ActorRef>, clone_boxed, as_control, as_weak_control); the two runs must both equal the model's run step by step, hence each other; identity/upgrade/downgrade mismatches are logged as events that the model never produces. Stress scenario `erasedblk`: blocking_tell / blocking_ask directly and through Box<dyn TellHandler> / Box<dyn AskHandler> over timeouts {None, zero, 40 ms, 2 s} and actor states {idle, busy, full mailbox, ended} give the same outcome class.",
+        "text": "Kernel-checked: forwarders_verbatim (the table of all 28 trait-object methods, read from src/handler.rs and src/actor_control.rs on every run, forwards each method to the inherent method of the same name with the same arguments, strong traits implemented by ActorRef only, weak traits by ActorWeak only), conversions_keep_strength (every From conversion boxes the value itself or its clone: strong->strong, weak->weak), clone_keeps_strength / keeps_alive (model). Since each erased operation IS the direct one, all C01-C15 theorems transfer. Real side: every seeded script is run twice against the same model, once on ActorRef/ActorWeak directly and once with every operation (tell/ask/timeouts/stop/kill/clone/downgrade/upgrade/is_alive/identity) routed through a trait object chosen per operation (TellHandler, AskHandler, ActorControl, Weak*; via From<&ActorRef>, From<ActorRef>, clone_boxed, as_control, as_weak_control); the two runs must both equal the model's run step by step, hence each other; identity/upgrade/downgrade mismatches are logged as events that the model never produces. Stress scenario `erasedblk`: blocking_tell / blocking_ask directly and through Box<dyn TellHandler> / Box<dyn AskHandler> over timeouts {None, zero, 40 ms, 2 s} and actor states {idle, busy, full mailbox, ended} give the same outcome class. hookpanic keeps one Box<dyn ActorControl> across the actor's end and compares its is_alive() with the ActorRef's; erasedblk also compares the dead letters recorded by each call.",
         "note": PROOF_NOTE,
         "technique": "Lean 4 theorems over the forwarder table extracted from the source + double correspondence (direct and type-erased) against one model",
         "monitors": ["C01", "C02", "C03", "C07", "C11", "C13"],
